@@ -1205,6 +1205,32 @@ impl<'a> Visitor<'a, '_, Error> for JSONValidator<'a> {
     self.state.is_ctrl_map_equality = false;
 
     let initial_error_count = self.errors.len();
+
+    if g.group_choices.len() > 1 {
+      // Each alternative is tried from the same starting state: what a failed
+      // alternative recorded (validated keys, occurrence bookkeeping) must not
+      // be visible to the next one or to the closed-map check
+      let checkpoint = self.clone();
+      let mut choice_errors = Vec::new();
+
+      for group_choice in g.group_choices.iter() {
+        let mut candidate = checkpoint.clone();
+        candidate.errors.truncate(initial_error_count);
+        candidate.visit_group_choice(group_choice)?;
+        if candidate.errors.len() == initial_error_count {
+          *self = candidate;
+          return Ok(());
+        }
+
+        choice_errors.extend(candidate.errors.into_iter().skip(initial_error_count));
+      }
+
+      *self = checkpoint;
+      self.errors.truncate(initial_error_count);
+      self.errors.extend(choice_errors);
+      return Ok(());
+    }
+
     for group_choice in g.group_choices.iter() {
       let error_count = self.errors.len();
       self.visit_group_choice(group_choice)?;
